@@ -246,3 +246,30 @@ func show(opts map[string]string) int {
 	}
 	return 0
 }
+
+// minIdx minimises the violation (key substring) of one seed index (development aid).
+func minIdx(opts map[string]string) int {
+	profile := opts["profile"]
+	if profile == "" {
+		profile = "core"
+	}
+	prop := opts["prop"]
+	if prop == "" {
+		prop = "ANY"
+	}
+	idx, _ := strconv.Atoi(opts["idx"])
+	wo := runWorker([]string{"SIM_MODE=seeds", "SIM_PROP=" + prop, "SIM_PROFILES=" + profile, fmt.Sprintf("SIM_BATCH=%d", batchSeed()),
+		fmt.Sprintf("SIM_FROM=%d", idx), fmt.Sprintf("SIM_TO=%d", idx+1), "SIM_KEEP_TRACE=1"}, 778)
+	for _, r := range wo.results {
+		for _, v := range r.Res.Viols {
+			if strings.Contains(v.Key(), opts["key"]) {
+				f := &found{v: v, cfg: r.Cfg, trace: r.Res.Trace}
+				path, ok := minimiseAndWrite(v.Prop, f)
+				fmt.Println(path, ok)
+				return 0
+			}
+		}
+	}
+	fmt.Println("no such violation")
+	return 1
+}
